@@ -15,7 +15,12 @@ stands for the very guard object the middleware was built with, {"$obj":
 "other_guard"} for another guard object (same class), {"$obj": "object"} for a plain
 object — under 'rbacx_guard' (what an outer instance of the middleware leaves there)
 or any other key.  The model's scope has the same three kinds of entries (Asgi.sval:
-SV / SGuard / SObj).  A case may also be a stacked deployment: "outer" lists further
+SV / SGuard / SObj).  Scope data may contain bytes ({"$b": latin-1 text}) and
+tuples ({"$t": [...]}) as an ASGI server produces them (headers, query_string,
+raw_path, client, server); the model gets them under that encoding and, like the
+code, looks at none of it: families request_shape:* vary method, headers, path,
+query string, root_path, scheme, http_version, client against refusing / allowing /
+raising engines and raising builders.  A case may also be a stacked deployment: "outer" lists further
 instances of the middleware wrapped around the case's own one, outermost first, each
 sharing the guard object ("same") or with its own ("own": scripted stub, or a real
 Guard over "gspec").  Every instance that is entered is one call of the model: its
@@ -51,6 +56,7 @@ import types
 import lib
 
 KEY = "rbacx_guard"
+BYT, TUP = "$b", "$t"  # scope data in a case: {"$b": latin-1 text} = bytes, {"$t": [...]} = tuple (see _to_py)
 OBJ = "$obj"          # a scope value {"$obj": name} in a case stands for an object, see run_impl
 RECV_ID, SEND_ID = 1, 2
 ITEM_IDS = [100, 101, 102, 103, 104, 105]
@@ -208,6 +214,43 @@ def _is_ph(v) -> bool:
     return isinstance(v, dict) and len(v) == 1 and OBJ in v
 
 
+def _to_py(v):
+    """case JSON -> the Python data put into the scope: {"$b": latin-1 text} is a bytes object, {"$t": [...]} a
+    tuple (what an ASGI server puts into headers / query_string / raw_path / client / server)."""
+    if isinstance(v, dict):
+        if len(v) == 1:
+            if BYT in v:
+                return v[BYT].encode("latin-1")
+            if TUP in v:
+                return tuple(_to_py(x) for x in v[TUP])
+        return {k: _to_py(x) for k, x in v.items()}
+    if isinstance(v, list):
+        return [_to_py(x) for x in v]
+    return v
+
+
+def _to_json(v):
+    """the inverse, on whatever is found in the scope (injective on bytes / tuples / lists / str-keyed dicts /
+    None / bool / int / float / str); raises for anything else."""
+    if v is None or v is True or v is False or type(v) in (int, float, str):
+        return v
+    t = type(v)
+    if t is bytes:
+        return {BYT: v.decode("latin-1")}
+    if t is tuple:
+        return {TUP: [_to_json(x) for x in v]}
+    if t is list:
+        return [_to_json(x) for x in v]
+    if t is dict:
+        out = {}
+        for k, x in v.items():
+            if type(k) is not str:
+                raise TypeError("key")
+            out[k] = _to_json(x)
+        return out
+    raise TypeError(t.__name__)
+
+
 def layer_specs(case):
     """the middleware instances of a case, outermost first; the last one is the case's own (primary) instance."""
     out = []
@@ -284,7 +327,7 @@ class _Run:
                 out[k] = ["guard"]
             else:
                 try:
-                    out[k] = ["v", json.loads(json.dumps(v))]
+                    out[k] = ["v", _to_json(v)]
                 except Exception:  # noqa: BLE001
                     out[k] = ["obj", self.objnum(v)]
         return out
@@ -375,7 +418,7 @@ async def run_impl(case):
 
     scope = {}
     for k, v in case["scope"].items():
-        scope[k] = named(v[OBJ]) if _is_ph(v) else json.loads(json.dumps(v))
+        scope[k] = named(v[OBJ]) if _is_ph(v) else _to_py(v)
 
     def mk_hook(g):
         def hook(kind, val):
@@ -522,6 +565,18 @@ def model_line(u):
                           list(sf) if sf else None, v.get("app_exc"))
 
 
+def _run_model(lines):
+    """lib.run_model drains one child's stdout at a time; a child whose answers exceed the pipe buffer stalls until
+    its turn.  Answers repeat the scope up to three times, so: few lines per child when the lines are long."""
+    short = [i for i, l in enumerate(lines) if len(l) < 1200]
+    longs = [i for i, l in enumerate(lines) if len(l) >= 1200]
+    out = [None] * len(lines)
+    for idx, chunk in ((short, 48), (longs, 6)):
+        for i, a in zip(idx, lib.run_model("asgi", [lines[i] for i in idx], chunk=chunk, procs=16)):
+            out[i] = a
+    return out
+
+
 def _canon_model(m):
     def sc(l):
         return {k: tag for k, tag in l}
@@ -658,7 +713,7 @@ def check_cases(chk, cases, replay=False):
     results = asyncio.run(run_all())
     flat = [(c, r, u) for c, r in zip(cases, results) for u in r["units"]]
     lines = [model_line(u) for _, _, u in flat]
-    answers = lib.run_model("asgi", lines, chunk=250, procs=16)
+    answers = _run_model(lines)
     models = [_canon_model(lib.dec(x)) for x in answers]
     if not replay and len(cases) > 1000 and "extraction_crosscheck" not in chk.extra:
         extraction_crosscheck(chk, lines, answers)
@@ -919,6 +974,7 @@ INCOMING_GUARD_POOL = ["stale", None, 0, {"old": True}, ["x"], _ph("guard"), _ph
 
 def gen_hostile(chk, n):
     rng = chk.rng
+    H = header_sets(600)
     for _ in range(n):
         t = rng.choice(TYPE_POOL)
         extra = {}
@@ -932,6 +988,9 @@ def gen_hostile(chk, n):
             extra[rng.choice(["app", "guard", "rbacx", "extensions"])] = rng.choice(
                 [_ph("guard"), _ph("other_guard"), _ph("object")])
         sc = _scope(t if isinstance(t, str) else "http", extra)
+        if isinstance(t, str) and t == "http" and rng.random() < 0.4:      # a request of random shape
+            sc = _rand_http_scope(rng, H)
+            sc.update(extra)
         if not isinstance(t, str):
             sc["type"] = t
         elif rng.random() < 0.01:
@@ -1023,6 +1082,186 @@ def gen_stacks(chk):
             (EV_ALLOW, EV_DENY), (None, [0, "OSError"], [1, "OSError"]), (None, "KeyError", "CancelledError")):
         yield {"fam": "stack2", "mode": "enforce", "add_headers": True, "scope": _scope("http"), "builder": RET4,
                "eval": ev, "send_fail": sf, "app_exc": ae, "outer": [dict(o)]}
+
+
+# ---- the request's shape: method, headers, path, query string, ... (all ignored by the model)
+MISSING = "<missing>"
+USUAL_HEADERS = [(b"host", b"example.org"), (b"user-agent", b"curl/8.5.0"), (b"accept", b"*/*"),
+                 (b"accept-encoding", b"gzip, deflate"), (b"connection", b"keep-alive")]
+METHODS = ["GET", "POST", "PUT", "PATCH", "DELETE", "HEAD", "OPTIONS", "TRACE", "CONNECT", "get", "options", "Options",
+           "BREW", "", MISSING]
+CORS_NAMES = [b"origin", b"access-control-request-method", b"access-control-request-headers"]
+CORS_VALUES = {b"origin": b"https://evil.example", b"access-control-request-method": b"DELETE",
+               b"access-control-request-headers": b"authorization, x-user"}
+
+
+def _bj(x):
+    return {BYT: x.decode("latin-1") if isinstance(x, bytes) else x}
+
+
+def _hdrs(pairs, as_lists=False):
+    return [[_bj(k), _bj(v)] if as_lists else {TUP: [_bj(k), _bj(v)]} for k, v in pairs]
+
+
+def _title(name: bytes) -> bytes:
+    return b"-".join(p.capitalize() for p in name.split(b"-"))
+
+
+def header_sets(long_n=600):
+    """name -> header list (pairs of bytes) | MISSING | None."""
+    H = {"empty": [], "usual": list(USUAL_HEADERS), "missing": MISSING, "none": None}
+    for mask in range(1, 8):
+        names = [n for i, n in enumerate(CORS_NAMES) if mask >> i & 1]
+        for cname, f in (("lower", lambda b: b), ("title", _title), ("upper", bytes.upper)):
+            H["cors%d_%s" % (mask, cname)] = USUAL_HEADERS[:2] + [(f(n), CORS_VALUES[n]) for n in names]
+    H["cors_only"] = [(b"origin", b"null"), (b"access-control-request-method", b"GET")]
+    H["cors_first_reversed"] = [(b"access-control-request-method", b"POST"), (b"origin", b"https://a.example")] \
+        + USUAL_HEADERS
+    H["cors_empty_values"] = USUAL_HEADERS[:1] + [(b"origin", b""), (b"access-control-request-method", b"")]
+    H["cors_mixed_case"] = USUAL_HEADERS[:1] + [(b"oRiGiN", b"https://a.example"),
+                                                 (b"Access-Control-Request-METHOD", b"PUT")]
+    H["cors_dup_origin"] = USUAL_HEADERS[:1] + [(b"origin", b"https://a.example"), (b"origin", b"https://b.example"),
+                                                 (b"access-control-request-method", b"GET")]
+    H["authorization"] = USUAL_HEADERS + [(b"authorization", b"Bearer eyJhbGciOiJub25lIn0.e30.")]
+    H["authorization_basic_dup"] = USUAL_HEADERS[:1] + [(b"authorization", b"Basic YWRtaW46YWRtaW4="),
+                                                         (b"authorization", b"Bearer x")]
+    H["cookie"] = USUAL_HEADERS + [(b"cookie", b"session=abc123; admin=true")]
+    H["forwarded"] = USUAL_HEADERS + [(b"x-forwarded-for", b"127.0.0.1"), (b"x-forwarded-proto", b"https"),
+                                      (b"x-forwarded-host", b"internal.example"), (b"x-real-ip", b"10.0.0.1"),
+                                      (b"forwarded", b"for=127.0.0.1;proto=https")]
+    H["x_rbacx"] = USUAL_HEADERS[:1] + [(b"x-rbacx-reason", b"matched"), (b"x-rbacx-rule", b"r1"),
+                                        (b"x-rbacx-policy", b"p1"), (b"x-rbacx-allowed", b"true"),
+                                        (b"x-rbacx-bypass", b"1")]
+    H["x_user_admin"] = USUAL_HEADERS[:1] + [(b"x-user", b"admin"), (b"x-role", b"admin"), (b"x-internal", b"1")]
+    H["dup_host"] = [(b"host", b"example.org"), (b"host", b"localhost")]
+    H["upgrade_websocket"] = USUAL_HEADERS[:1] + [(b"connection", b"Upgrade"), (b"upgrade", b"websocket"),
+                                                  (b"sec-websocket-key", b"dGhlIHNhbXBsZSBub25jZQ=="),
+                                                  (b"sec-websocket-version", b"13")]
+    H["method_override"] = USUAL_HEADERS[:1] + [(b"x-http-method-override", b"OPTIONS"), (b"x-http-method", b"GET")]
+    H["health_probe"] = [(b"host", b"10.0.0.5:8000"), (b"user-agent", b"kube-probe/1.29")]
+    H["content"] = USUAL_HEADERS[:1] + [(b"content-type", b"application/json"), (b"content-length", b"0"),
+                                        (b"transfer-encoding", b"chunked"), (b"expect", b"100-continue")]
+    H["very_long"] = USUAL_HEADERS[:1] + [(b"cookie", b"a=" + b"x" * long_n)]
+    H["many"] = [(b"x-h%d" % i, b"v%d" % i) for i in range(40)]
+    H["non_latin_bytes"] = USUAL_HEADERS[:1] + [(b"x-name", "é日本語".encode("utf-8")), (b"x-bin", bytes([255, 254, 0, 128])),
+                                                (b"x-\xff", b"\x00")]
+    return H
+
+
+def http_scope(method="GET", headers=USUAL_HEADERS, path="/doc/1", query=b"", as_lists=False, **over):
+    """an http scope as an ASGI server builds it (bytes / tuples where the spec has them)."""
+    sc = {"type": "http", "asgi": {"version": "3.0", "spec_version": "2.3"}, "http_version": "1.1", "method": method,
+          "scheme": "http", "path": path, "raw_path": _bj(path.encode("utf-8")), "query_string": _bj(query),
+          "root_path": "", "headers": None if headers is None else MISSING if headers == MISSING
+          else _hdrs(headers, as_lists), "client": {TUP: ["127.0.0.1", 50432]}, "server": {TUP: ["testserver", 80]}}
+    sc.update(over)
+    return {k: v for k, v in sc.items() if not (isinstance(v, str) and v == MISSING)}
+
+
+PATHS = ["/", "/doc/1", "/health", "/healthz", "/ready", "/metrics", "/static/app.js", "/favicon.ico", "/robots.txt",
+         "/.well-known/security.txt", "/.well-known/openid-configuration", "/docs", "/openapi.json", "/admin/../doc/1",
+         "/doc/1/..", "//doc//1", "/doc/%2e%2e/admin", "/doc/1;jsessionid=1", "/doc/é", "*", ""]
+QUERIES = [b"", b"a=1", b"rbacx=off", b"skip_auth=1&debug=true", b"access_token=x", b"%00",
+           "q=é".encode("utf-8"), b"?", b"method=OPTIONS"]
+# (builder, evaluation, add_headers): the engine refuses / allows / raises, the builder raises
+OUTCOMES = None
+
+
+def _outcomes():
+    return [(RET4, EV_DENY, False), (RET4, EV_DENY, True), (RET4, EV_ALLOW, False), (RET4, EV_RAISE, False),
+            (B_RAISE, EV_ALLOW, False)]
+
+
+def gen_request_shapes(chk):
+    """http scopes over the request's shape — every method x every header set, then paths x query strings x a few
+    methods, then root_path x scheme x http_version x client/server — each crossed with a refusing / allowing /
+    raising engine and a raising builder (stub guard; complete product); a smaller product over the real Guard."""
+    quick = chk.tier == "quick"
+    long_n = 600 if quick else 6000
+    H = header_sets(long_n)
+    paths = PATHS + ["/" + "a" * long_n]
+    queries = QUERIES + [b"a=" + b"b" * long_n]
+    for m, (hname, h), (b, ev, ah) in itertools.product(METHODS, H.items(), _outcomes()):
+        yield {"fam": "request_shape:method_x_headers", "mode": "enforce", "add_headers": ah,
+               "scope": http_scope(m, h, as_lists=hname.endswith("title")), "builder": b, "eval": ev, "send_fail": None,
+               "app_exc": None}
+    for m, hname, mode in itertools.product(("GET", "OPTIONS"), ("usual", "cors3_lower", "authorization"),
+                                            ("inject", "ENFORCE")):
+        yield {"fam": "request_shape:method_x_headers", "mode": mode, "add_headers": True,
+               "scope": http_scope(m, H[hname]), "builder": RET4, "eval": EV_DENY, "send_fail": None, "app_exc": None}
+    shapes3 = (("GET", "usual"), ("OPTIONS", "cors3_lower"), ("POST", "authorization"))
+    if quick:       # paths and query strings one at a time, the full product only for the preflight-shaped request
+        pq = [(p, b"", mh, o) for p, mh, o in itertools.product(paths, shapes3, _outcomes())] \
+            + [("/doc/1", q, mh, o) for q, mh, o in itertools.product(queries[1:], shapes3, _outcomes())] \
+            + [(p, q, shapes3[1], o) for p, q, o in itertools.product(paths, queries[1:], (_outcomes()[0], _outcomes()[4]))]
+    else:
+        pq = list(itertools.product(paths, queries, shapes3, _outcomes()))
+    for p, q, (m, hname), (b, ev, ah) in pq:
+        yield {"fam": "request_shape:path_x_query", "mode": "enforce", "add_headers": ah,
+               "scope": http_scope(m, H[hname], path=p, query=q), "builder": b, "eval": ev, "send_fail": None,
+               "app_exc": None}
+    clients = [{TUP: ["127.0.0.1", 50432]}, None, MISSING, ["::1", 0], {TUP: ["10.0.0.1", 443]}, {TUP: ["unix", None]}]
+    for rp, sch, hv, cl, (b, ev, ah) in itertools.product(
+            ("", "/api", MISSING), ("http", "https", "ws", MISSING), ("1.0", "1.1", "2", "3", MISSING), clients,
+            (_outcomes()[0], _outcomes()[2], _outcomes()[4]) if quick else _outcomes()):
+        over = {"root_path": rp, "scheme": sch, "http_version": hv, "client": cl}
+        if cl is None:
+            over["server"] = None
+        elif cl == MISSING:
+            over["server"] = MISSING
+        yield {"fam": "request_shape:transport", "mode": "enforce", "add_headers": ah,
+               "scope": http_scope("GET", **over), "builder": b, "eval": ev, "send_fail": None, "app_exc": None}
+    # extension keys an ASGI server / framework may add
+    for ex, (b, ev, ah) in itertools.product(
+            ({"extensions": {"http.response.push": {}, "tls": {"tls_version": 772}}}, {"state": {"authenticated": True}},
+             {"user": "admin", "auth": ["authenticated"]}, {"path_params": {"id": "1"}, "route": "/doc/{id}"},
+             {"raw_path": MISSING, "query_string": MISSING}, {"asgi": MISSING}, {"method": None}, {"headers": {TUP: []}},
+             {"path": None, "raw_path": None}), _outcomes()):
+        sc = http_scope("GET")
+        sc.update(ex)
+        sc = {k: v for k, v in sc.items() if not (isinstance(v, str) and v == MISSING)}
+        yield {"fam": "request_shape:extensions", "mode": "enforce", "add_headers": ah,
+               "scope": sc, "builder": b, "eval": ev, "send_fail": None, "app_exc": None}
+    P = guard_policies()
+    for pname, rname, m, hname, b in itertools.product(
+            ("permit", "deny", "mfa", "set_mfa", "no_rules"), REQUESTS, ("GET", "OPTIONS", "HEAD", "options"),
+            ("usual", "cors3_lower", "cors3_title", "cors_only", "authorization"), (RET4, B_RAISE)):
+        pol, exp = P[pname]
+        yield {"fam": "request_shape:guard:" + pname, "mode": "enforce", "add_headers": True,
+               "scope": http_scope(m, H[hname], path="/admin"), "builder": b,
+               "guard": {"policy": pol, "request": REQUESTS[rname], "expect_allowed": exp[rname]},
+               "eval": None, "send_fail": None, "app_exc": None}
+
+
+def _rand_http_scope(rng, H):
+    """a random request shape: every field drawn independently."""
+    hs = H[rng.choice(list(H))]
+    if isinstance(hs, list) and rng.random() < 0.5:
+        hs = list(hs)
+        for _ in range(rng.choice([1, 1, 2, 3])):     # sprinkle extra headers in random case at random positions
+            n = rng.choice(CORS_NAMES + [b"authorization", b"cookie", b"x-forwarded-for", b"upgrade", b"x-rbacx-rule",
+                                         b"host", b"x-user"])
+            n = rng.choice([n, _title(n), n.upper()])
+            hs.insert(rng.randint(0, len(hs)), (n, rng.choice([b"", b"x", b"websocket", b"GET", b"https://a.example"])))
+        rng.shuffle(hs)
+    over = {}
+    if rng.random() < 0.3:
+        over["root_path"] = rng.choice(["", "/api", "/v1/", MISSING])
+    if rng.random() < 0.3:
+        over["scheme"] = rng.choice(["http", "https", "ws", "wss", MISSING])
+    if rng.random() < 0.3:
+        over["http_version"] = rng.choice(["1.0", "1.1", "2", "3", MISSING])
+    if rng.random() < 0.3:
+        over["client"] = rng.choice([None, MISSING, {TUP: ["10.0.0.1", 443]}, ["::1", 0]])
+    if rng.random() < 0.1:
+        over["state"] = {"authenticated": True, "user": rng.choice(["admin", "é"])}
+    m = rng.choice(METHODS + ["OPTIONS"] * 6 + ["GET", "POST"] * 3)
+    p, q = rng.choice(PATHS), rng.choice(QUERIES)
+    if rng.random() < 0.02:
+        p = "/" + "a" * rng.choice([300, 2000])
+    if rng.random() < 0.02:
+        q = b"a=" + b"b" * rng.choice([300, 3000])
+    return http_scope(m, hs, path=p, query=q, as_lists=rng.random() < 0.3, **over)
 
 
 # ---- the real Guard over a family of small policies
@@ -1229,10 +1468,20 @@ def run(chk):
                 "raising} x builder {ok, absent, raising} around an inner instance {enforce, inject} x builder x {allow, "
                 "deny, raise} x add_headers x scope type x incoming 'rbacx_guard' {absent, own, other}; all three-instance "
                 "stacks over {inject, enforce} x {same, own guard}; the real Guard shared by / distinct in 8 stack shapes x "
-                "14 policies x 3 requests x inner mode x builder; then seeded random hostile decisions (non-ASCII, "
+                "14 policies x 3 requests x inner mode x builder; the request's shape with realistic ASGI scopes (bytes "
+                "headers): 15 methods (GET..CONNECT, lower case, unknown, empty, missing) x 43 header lists (empty, "
+                "missing, None, usual, the three CORS preflight headers in every combination x lower/Title/UPPER case, "
+                "reversed / duplicated / empty-valued / mixed case, Authorization, Cookie, X-Forwarded-*, X-RBACX-*, "
+                "X-User, duplicate Host, Upgrade: websocket, method override, probe, content, very long, 40 headers, "
+                "non-latin bytes) x {deny, deny+headers, allow, engine raises, builder raises}; 24 paths (health, "
+                "static, well-known, docs, '..', encoded, '*', empty, very long) and 10 query strings x 3 request shapes "
+                "x outcomes (quick: one at a time + full product for the preflight-shaped request; thorough: full "
+                "product); root_path x scheme x http_version x client/server x outcomes; extension keys; 5 policies x 3 "
+                "requests x 4 methods x 5 header lists x builder over the real Guard; then seeded random hostile decisions (non-ASCII, "
                 "quotes, CR/LF, 5000 chars, the word "
                 "Forbidden, None, non-strings, truthy/falsy non-bool `allowed`), hostile modes/scope types, stale or "
-                "object-valued 'rbacx_guard' keys, random outer instances, and real-Guard policies with hostile "
+                "object-valued 'rbacx_guard' keys, random request shapes (method, shuffled header lists with extra CORS / auth "
+                "headers in random case, path, query, transport fields), random outer instances, and real-Guard policies with hostile "
                 "rule/policy ids. non-trivial = the access "
                 "check applies (http + enforce + builder) or a denying/raising collaborator is configured behind a "
                 "pass-through; distinct = distinct (case content, instance)")
@@ -1243,7 +1492,15 @@ def run(chk):
         "str() of non-string decision fields is modelled for None/bool/int/float/printable-ASCII containers "
         "(Value.py_str); other values are judged directly in Python (bucket ood:str)",
         "awaiting is sequential composition; receive/send/downstream are called on the caller's task",
-        "scope values are JSON data (no bytes objects) or, at the top level of the dict, opaque objects (the "
+        "the model reads only scope['type'] and writes only scope['rbacx_guard']: method, path, raw_path, query_string, "
+        "headers, root_path, scheme, http_version, client, server, extensions, state and every other entry are data it "
+        "passes through unchanged, and no theorem of props/C20.v has a hypothesis about them — any dependence of the "
+        "implementation's enforcement decision on the request's shape is therefore a deviation (families "
+        "request_shape:*, random shapes in hostile); the model did not need to change for these families",
+        "bytes objects and tuples in the scope (headers, query_string, raw_path, client, server) are given to the model "
+        "under an injective JSON encoding ({\"$b\": latin-1 text}, {\"$t\": [...]}), so an in-place change of them is "
+        "still seen as a changed scope",
+        "scope values are such data or, at the top level of the dict, opaque objects (the "
         "middleware's own guard object, another guard object, a plain object) told apart by identity; objects "
         "nested inside JSON containers are not generated",
         "a stacked deployment is judged instance by instance: the model is a single instance, its downstream's "
@@ -1257,6 +1514,7 @@ def run(chk):
     quick = chk.tier == "quick"
     cases = (list(gen_enum_a(chk)) + list(gen_enum_b(chk)) + list(gen_enum_c(chk)) + list(gen_guard_enum(chk))
              + list(gen_incoming_scope(chk)) + list(gen_stacks(chk)) + list(gen_guard_stacks(chk))
+             + list(gen_request_shapes(chk))
              + list(gen_ood_surrogate(chk)))
     chk.exhaustive = True
     cases += list(gen_hostile(chk, 8000 if quick else 150000))
